@@ -437,6 +437,32 @@ type streamingResponseWriter struct {
 	wroteHeader bool
 	bodyWriter  *io.PipeWriter
 	bodyReader  *io.PipeReader
+
+	// finalTrailer holds the trailer values collected by `Close`. It is written before the
+	// body pipe is closed and only read (by the reader of the body) after that reader has
+	// seen the end of the body.
+	finalTrailer http.Header
+}
+
+// streamedBody is the body of a streamed response. It fills in the trailers of the
+// response once the end of the body has been reached, from the goroutine reading the body.
+//
+// The response header and trailer maps must not be modified by the writing side after the
+// response has been sent to the response channel, as the reading side uses them concurrently.
+type streamedBody struct {
+	*io.PipeReader
+	w       *streamingResponseWriter
+	trailer http.Header
+}
+
+func (b *streamedBody) Read(p []byte) (int, error) {
+	n, err := b.PipeReader.Read(p)
+	if err == io.EOF {
+		for k, vs := range b.w.finalTrailer {
+			b.trailer[k] = vs
+		}
+	}
+	return n, err
 }
 
 func (w *streamingResponseWriter) Header() http.Header {
@@ -486,7 +512,6 @@ func (w *streamingResponseWriter) WriteHeader(status int) {
 			header.Add(k, v)
 		}
 	}
-	w.header = header
 
 	// Take the protocol version information for the response from the corresponding request.
 	proto := "HTTP/1.1"
@@ -503,8 +528,8 @@ func (w *streamingResponseWriter) WriteHeader(status int) {
 		ProtoMinor: protoMinor,
 		StatusCode: status,
 		Status:     http.StatusText(status),
-		Header:     w.header,
-		Body:       w.bodyReader,
+		Header:     header,
+		Body:       &streamedBody{PipeReader: w.bodyReader, w: w, trailer: w.trailer},
 		Trailer:    w.trailer,
 	}
 	select {
@@ -525,12 +550,15 @@ func (w *streamingResponseWriter) Close() error {
 	if !w.wroteHeader {
 		w.WriteHeader(http.StatusOK)
 	}
+	// The trailer map itself is shared with the reader of the response, so we
+	// collect the trailer values separately and let the reader pick them up.
+	finalTrailer := make(http.Header)
 	for k, _ := range w.trailer {
 		for _, v := range w.Header().Values(k) {
 			// The `Values` method does not return a copy, so we manually
 			// add each value one at a time to ensure that subsequent changes
 			// to the header do not affect the trailers map.
-			w.trailer.Add(k, v)
+			finalTrailer.Add(k, v)
 		}
 	}
 	for k, vs := range w.Header() {
@@ -543,9 +571,10 @@ func (w *streamingResponseWriter) Close() error {
 			continue
 		}
 		for _, v := range vs {
-			w.trailer.Add(k, v)
+			finalTrailer.Add(k, v)
 		}
 	}
+	w.finalTrailer = finalTrailer
 	return w.bodyWriter.Close()
 }
 
